@@ -92,3 +92,58 @@ def judge(rep, prop, behaviours, trace, names, timeout=1700):
             rep.classify(sig, 'behaviour %s: first failing step of this oracle: line %d action %s check %s'
                          % (tid, line, action, name), {'behaviours': [by_id[tid]]})
     return res
+
+
+def run_check(rep, tier, seed, replay, prop, names, nontrivial, rule, quick_num=700, thorough_num=8000):
+    """the pipeline shared by C08 and C09: design check -> simulate -> execute -> TLC judges -> evidence"""
+    import random
+    import time
+    rng = random.Random(seed)
+    sub = prop.lower()
+    test = 'TestVerif' + prop
+    t0 = time.time()
+
+    def lap(what):
+        core.log('[%s] %s done at %.0fs' % (prop, what, time.time() - t0))
+
+    if replay:
+        behaviours = replay['replay']['behaviours']
+        with core.scratch(sub) as d:
+            trace = execute(behaviours, d, test, sub)
+            judge(rep, prop, behaviours, trace, names)
+        rep.cov['rule'] = 'replay of a saved stimulus'
+        rep.cov['samples'] = behaviours[:1]
+        return
+    quick = tier == 'quick'
+    suffix = '' if prop == 'C08' else '_C09'
+    # 1. design check: every behaviour of the bounded model satisfies P_* (StepsOK) and the invariants
+    cfgs = ['MC_Cleaner%s.cfg' % suffix] if quick else ['MC_Cleaner%s.cfg' % suffix, 'MC_Cleaner%s_thorough.cfg' % suffix]
+    for cfg in cfgs:
+        res = core.tlc_check('MC_Cleaner.tla', cfg, timeout=3000, coverage=not quick)
+        rep.add_design(cfg[:-4], res)
+        lap('design check ' + cfg)
+    # 2. behaviours from the specification
+    num = quick_num if quick else thorough_num
+    depth = 16 if quick else 20
+    sims = core.tlc_simulate('MC_Cleaner.tla', 'Sim_Cleaner_%s%s.cfg' % (prop, '' if quick else '_thorough'),
+                             num, depth, seed, timeout=2400)
+    behaviours = [decorate(b, rng, i + 1) for i, b in enumerate(sims) if len(b) > 1]
+    lap('simulation (%d behaviours)' % len(behaviours))
+    # 3. execute on the real code, 4. judge with TLC
+    with core.scratch(sub) as d:
+        trace = execute(behaviours, d, test, sub, timeout=2400)
+        lap('execution on the real commit log')
+        tr = judge(rep, prop, behaviours, trace, names, timeout=3400)
+        lap('trace validation')
+    rep.cov['traces_validated_against_impl'] = len(behaviours)
+    rep.cov['trace_lines_validated'] = tr['validated']
+    rep.cov['evaluations'] = len(behaviours)
+    rep.cov['distinct_nontrivial'] = len({core.sha(shape(b)) for b in behaviours if nontrivial(b)})
+    rep.cov['cleans_executed'] = sum(1 for b in behaviours for s in b['steps'] if s['a'] in ('Clean', 'CleanEnd'))
+    rep.cov['cleans_with_appends_in_window'] = sum(
+        1 for b in behaviours for i, s in enumerate(b['steps'])
+        if s['a'] == 'CleanBegin' and i + 1 < len(b['steps']) and b['steps'][i + 1]['a'] == 'Append')
+    rep.cov['rule'] = rule
+    rep.cov['samples'] = behaviours[:2]
+    rep.assumptions += ['single appender (lock-step driver); Clean() parked at the clean.before_swap gate',
+                        'TLC evaluates the TLA+ predicates correctly']
